@@ -37,6 +37,8 @@ type Analysis struct {
 	RegistryStartup bool     // no non-init function of the module (outside tests) mutates the checksum registry
 	RegistryMutCall []string // offending call sites otherwise
 	mu              sync.Mutex
+	gfOnce          sync.Once
+	gf              *globalFactsT
 	pinnedOnce      sync.Once
 	pinned          map[string]string // table of the tree -> table of the pinned schema it stands for
 	errGlobals      map[*ssa.Global]bool
